@@ -375,7 +375,7 @@ func (r *Report) finish() int {
 		"go/types + go/ssa (x/tools v0.50.0) front end and this VC generator are trusted",
 		"SMT solvers z3 4.8.12, z3 5.1.0, cvc5 1.0 are trusted (an obligation is discharged when any of them answers unsat)",
 		"integers are fixed-width bit-vectors with Go wrap-around semantics (not mathematical); strings are SMT-LIB strings with one character per byte",
-		"callees without a contract that are not inlined (libraries, interface methods) are assumed to modify only the objects their arguments point to directly",
+		"callees without a contract that are not inlined (libraries, interface methods) are assumed to modify only the objects their arguments point to directly, and never the elements of []string arguments",
 		"goroutine interleavings, channel contents, select, recover, reflection and unsafe are dropped by the extraction; termination is not proved",
 	}
 	for a := range r.Eng.assumes {
